@@ -1,4 +1,5 @@
 import Mkts.Lemmas.Coerce
+import Mkts.Lemmas.Coerce2
 import Mkts.Model.ExceptDec
 /-!
 # C14 — writes are validated against the bucket schema
@@ -51,6 +52,36 @@ theorem C14_accept_same (db : List DS) (cols : List Col) (h : cols.map (·.ds) =
   rw [getMissing_self (epochDS :: db) (by simp)]
   simp [List.foldlM]
   rfl
+
+/-- same names (in any order), other numeric types ⇒ accepted, and every request column is converted
+    to the type of the bucket column of the same NAME (`coerced`: `convert` on every value).
+    `Defined` excludes exactly the implementation-defined float → integer conversions and the
+    non-numeric (STRING16) columns. -/
+theorem C14_coerce (db : List DS) (cols : List Col)
+    (hnames : cols.map (·.ds.name) = names db) (hnd : (epochName :: names db).Nodup)
+    (hdef : ∀ d ∈ db, ∀ c ∈ cols, c.ds.name = d.name → c.ds.ty ≠ d.ty → Defined d c) :
+    checkAndCoerce db cols = .ok (cols.map (coerced db)) :=
+  checkAndCoerce_same_names db cols hnames hnd hdef
+
+/-- …and when the names are listed in the bucket's order the coerced columns carry exactly the
+    bucket's shapes in the bucket's order, so the positional serialisation of `ToRowSeries` puts every
+    value into the column of its own name -/
+theorem C14_coerce_shapes (db : List DS) (cols : List Col)
+    (hnames : cols.map (·.ds.name) = names db) (hnd : (epochName :: names db).Nodup) :
+    (cols.map (coerced db)).map (·.ds) = db :=
+  coerced_shapes db cols hnames (List.nodup_cons.mp hnd).2
+
+/-- the partial theorem: a single-bucket request whose column names are the bucket's, in the
+    bucket's order, is accepted, its rows are queued with the converted columns and committed
+    together with whatever was pending; the write channel is empty afterwards -/
+theorem C14_partial (schema : String → Option (List DS)) (ch : Chan) (p : Part) (db : List DS)
+    (hs : schema p.key = some db) (hne : p.secs ≠ [])
+    (hnames : p.cols.map (·.ds.name) = names db) (hnd : (epochName :: names db).Nodup)
+    (hdef : ∀ d ∈ db, ∀ c ∈ p.cols, c.ds.name = d.name → c.ds.ty ≠ d.ty → Defined d c) :
+    request schema ch [p] =
+      (none, ⟨[]⟩, ch.pending ++ partRows p.key (p.cols.map (coerced db)) p.secs, []) := by
+  have h1 : p.secs.isEmpty = false := by cases h : p.secs <;> simp_all
+  simp [request, writeCSMLoop, h1, hs, C14_coerce db p.cols hnames hnd hdef]
 
 /-- the full statement -/
 def requestOK (schema : String → Option (List DS)) (ch : Chan) (parts : List Part) : Bool :=
@@ -113,5 +144,11 @@ example : convert .i32 .i64 [255, 255, 255, 255] = some [255, 255, 255, 255, 255
 example : convert .i32 .u8 [1, 1, 0, 0] = some [1] := by decide
 example : checkAndCoerce [⟨nA, .i32⟩] [⟨⟨nA, .i16⟩, [[254, 255]]⟩] = .ok [⟨⟨nA, .i32⟩, [[254, 255, 255, 255]]⟩] := by decide
 example : checkAndCoerce [⟨nA, .i32⟩] [⟨⟨nB, .i32⟩, [one32]⟩] = .error .mismatch := by decide
+example : Defined ⟨nA, .i32⟩ ⟨⟨nA, .f64⟩, [[0, 0, 0, 0, 0, 0, 4, 192]]⟩ ∧
+    convert .f64 .i32 [0, 0, 0, 0, 0, 0, 4, 192] = some [254, 255, 255, 255] := by
+  refine ⟨⟨by decide, by decide, ?_⟩, by decide⟩
+  intro v hv; simp at hv; subst hv; decide
+example : ¬ Defined ⟨nA, .i32⟩ ⟨⟨nA, .f64⟩, [[0, 0, 0, 0, 0, 0, 248, 127]]⟩ := by
+  intro h; have := h.2.2 [0, 0, 0, 0, 0, 0, 248, 127] (by simp); revert this; decide
 
 end Mkts.Props.C14
